@@ -233,6 +233,16 @@ func genDbcSweep(g *G, k int) *gDbc {
 	mk := func(name string, start, L int, mi int) *gSig {
 		sg := &gSig{name: name, signed: signed, factor: "1", offset: "0", min: "0", max: "0", recv: []string{"NodeS0"}}
 		sg.geo = Geo{be, start, L}
+		switch L % 16 {
+		case 3:
+			sg.unit = "\x0bV"
+		case 5:
+			sg.unit = "m\x7fs"
+		case 7:
+			sg.unit = "\U000E0001x"
+		case 9:
+			sg.unit = "°C"
+		}
 		switch (L + 2*mi) % 6 {
 		case 0:
 			sg.factor = "0.5"
@@ -261,6 +271,11 @@ func genDbcSweep(g *G, k int) *gDbc {
 				st, st2 = 7, BePos(7, L)
 			}
 			m.sigs = []*gSig{mk("Lo", st, L, L), mk("Hi", st2, 64-L, L)}
+			if L == 32 {
+				// a float32 signal in every byte order on every run
+				m.sigs[0].flt, m.sigs[0].signed = true, false
+				m.sigs[0].factor, m.sigs[0].offset = "1", "0"
+			}
 		}
 		d.msgs = append(d.msgs, m)
 	}
@@ -437,6 +452,10 @@ func genDbc43(g *G, forceWC int) *gDbc {
 				sg.min, sg.max = "0", "100"
 			}
 			sg.unit = g.R.Pick("", "", "km/h", "V", "%")
+			if g.R.Intn(6) == 0 {
+				// text that renderers have to escape: control characters, DEL, non-ASCII, a non-printable rune above U+FFFF
+				sg.unit = g.R.Pick("\x0bV", "m\x7fs", "°C", "\U000E0001x", "a\tb", "\x1f", "µ<&>")
+			}
 			if !sg.flt && g.R.Intn(4) == 0 {
 				// value descriptions inside the raw range
 				n := 1 + g.R.Intn(3)
@@ -457,7 +476,11 @@ func genDbc43(g *G, forceWC int) *gDbc {
 						continue
 					}
 					seen[v] = true
-					sg.vds = append(sg.vds, [2]string{fmt.Sprint(v), fmt.Sprintf("Val%d %c", k, 'a'+byte(g.R.Intn(26)))})
+					desc := fmt.Sprintf("Val%d %c", k, 'a'+byte(g.R.Intn(26)))
+					if g.R.Intn(5) == 0 {
+						desc += g.R.Pick("\x0b", "\x7f", "\x1f", "é", "\U000E0001", "<tag>")
+					}
+					sg.vds = append(sg.vds, [2]string{fmt.Sprint(v), desc})
 				}
 			}
 			if !sg.flt && (g.R.Intn(5) == 0 || twin && g.R.Bool()) {
@@ -566,6 +589,14 @@ func (m *gMsg) validFrame(g *G) string {
 	}
 	if mux != nil && len(sels) > 0 && g.R.Bool() {
 		p = putBits(p, mux.geo, uint64(sels[g.R.Intn(len(sels))]))
+	}
+	// float32 signals: a third of the frames carry a special pattern (infinities, the largest finite values, the
+	// smallest subnormal, negative zero) that random payloads practically never contain
+	for _, s := range m.sigs {
+		if s.flt && g.R.Intn(3) == 0 {
+			pats := []uint64{0x7f800000, 0xff800000, 0x7f7fffff, 0xff7fffff, 0x00000001, 0x80000000, 0x3f800000}
+			p = putBits(p, s.geo, pats[g.R.Intn(len(pats))])
+		}
 	}
 	return frameArg(m.id&0x7fffffff, m.size, p, false, m.id&0x80000000 != 0)
 }
